@@ -68,7 +68,7 @@ func commitStoreTransactions(r *an.Run) {
 		}},
 	}
 	r.Obl("one-transaction-complete-write-set", "PATH",
-		"each state transition of the store runs exactly one kvdb.Update; inside its closure every required durable write is on every nil-error return and is reachable only below !isBorked; writes the legacy early return may skip are required on every other success return",
+		"each state transition of the store runs exactly one kvdb.Update; inside its closure every required durable write is on every nil-error return and is reachable only below !isBorked; writes the legacy early return may skip are required on every other success return; every direct Put stores the bytes of a local buffer filled by exactly one successful serializer call with the value that key holds (no buffer stored twice, none filled and dropped), and the helper writes receive the transition's own channel / commitment / diff / forwarding package",
 		"a write that is skipped on some success path, or moved out of the transaction, makes the reloaded state a mixture of two transitions", 40,
 		func(o *an.Obl) {
 			for _, tx := range txs {
@@ -86,11 +86,18 @@ func commitStoreTransactions(r *an.Run) {
 					sites := cl.CallsMatching(wr.term, false)
 					mustPass(o, cl, wr.what, sites, an.OkErrNil, succ)
 					guardedAll(o, cl, sites, notBorked)
+					if want, ok := c02StoreArgs[tx.fn+"/"+wr.what]; ok {
+						for _, s := range sites {
+							c02ArgsAre(o, cl, s, wr.what, want)
+						}
+					}
 					// and nowhere outside the closure
 					for _, s := range f.CallsMatching(wr.term, false) {
 						o.FailAt(f.ID+"#outside-tx-"+wr.what, s.Where(), "%s is called outside the kvdb.Update closure", wr.what)
 					}
 				}
+				// the value side of the direct Put calls
+				c02BufferStores(o, cl, c02StorePayloads[tx.fn])
 				if len(tx.legacy) > 0 {
 					legacyFact := an.IsNil(an.CallNamed("Get", nil, an.PkgVar("channeldb", tx.legacyGet)), true, "Get("+tx.legacyGet+") == nil")
 					var rest []an.Site
@@ -115,7 +122,7 @@ func commitStoreTransactions(r *an.Run) {
 		})
 
 	r.Obl("lastWasRevoke-constants", "TABLE",
-		"the value stored under lastWasRevokeKey is the constant true in UpdateChannelCommitment (we just revoked) and false in AppendRemoteCommitChain (we just signed)",
+		"the value stored under lastWasRevokeKey is the constant true in UpdateChannelCommitment (we just revoked) and false in AppendRemoteCommitChain (we just signed); fetchChanInfo decodes the stored value into channel.LastWasRevoke and sets the constant false only when the key is absent",
 		"ProcessChanSyncMsg orders the retransmitted revocation and commitment by this flag (C03)", 2,
 		func(o *an.Obl) {
 			for fnID, want := range map[string]bool{
@@ -165,8 +172,72 @@ func commitStoreTransactions(r *an.Run) {
 					o.FailAt(f.ID+"#lastWasRevoke-writes", puts[0].Where(), "expected exactly one WriteElements into the flag buffer, found %d", found)
 				}
 			}
+			// the reader: the stored byte is decoded into channel.LastWasRevoke;
+			// a channel that has neither signed nor revoked yet (no key) reads
+			// as false, the value AppendRemoteCommitChain would have stored
+			rd := p.Func("channeldb.fetchChanInfo")
+			flag := an.Field("chanstate.OpenChannel", "LastWasRevoke", nil)
+			stored := an.CallNamed("Get", nil, an.PkgVar("channeldb", "lastWasRevokeKey"))
+			asg := rd.Assigns(flag, true)
+			if needExactly(o, rd, "constant assignment of LastWasRevoke", asg, 1) {
+				as, _ := asg[0].Node.(*ast.AssignStmt)
+				if as == nil || len(as.Rhs) != 1 || !an.BoolConst(false)(rd, ast.Unparen(as.Rhs[0])) {
+					o.FailAt(rd.ID+"#lastWasRevoke-default", asg[0].Where(), "fetchChanInfo sets LastWasRevoke by %s; the default for a missing key must be the constant false", an.Text(asg[0].Node))
+				}
+				guarded(o, rd, asg[0], an.IsNil(stored, true, "Get(lastWasRevokeKey) == nil"))
+			}
+			var reads []an.Site
+			for _, s := range rd.Calls(an.CalleeIs("channeldb.ReadElements", "channeldb.ReadElement"), false) {
+				for _, a := range s.Node.(*ast.CallExpr).Args[1:] {
+					if an.Match(rd, flag, a) {
+						reads = append(reads, s)
+					}
+				}
+			}
+			if needExactly(o, rd, "ReadElements(.., &channel.LastWasRevoke)", reads, 1) {
+				c02ArgsAre(o, rd, reads[0], "ReadElements(lastWasRevoke)", map[int]string{
+					0: `^bytes\.NewReader\(\$p0\.Get\(channeldb\.lastWasRevokeKey\)\)$`, 1: `^&\$p1\.LastWasRevoke$`})
+				guarded(o, rd, reads[0], an.IsNil(stored, false, "Get(lastWasRevokeKey) != nil"))
+				mustPassUnless(o, rd, "ReadElements(lastWasRevoke)", reads, an.OkErrNil, rd.SuccessReturns(), an.IsNil(stored, true, "Get(lastWasRevokeKey) == nil"))
+			}
 		})
 
+}
+
+// c02StoreArgs: what the helper writes of each transition are given (the
+// channel, the new commitment, the diff's ack lists, the forwarding package
+// are parameters of the transition; the promoted remote commitment is the one
+// of the diff read under commitDiffKey in the same transaction).
+var c02StoreArgs = map[string]map[int]string{
+	"channeldb.ChannelStateDB.UpdateChannelCommitment/putChanInfo":              {1: `^\$p0$`},
+	"channeldb.ChannelStateDB.UpdateChannelCommitment/putChanCommitment":        {1: `^\$p1$`},
+	"channeldb.ChannelStateDB.AppendRemoteCommitChain/AckAddHtlcs":              {1: `^\$p1\.AddAcks$`},
+	"channeldb.ChannelStateDB.AppendRemoteCommitChain/AckSettleFails":           {1: `^\$p1\.SettleFailAcks$`},
+	"channeldb.ChannelStateDB.AdvanceCommitChainTail/putChanRevocationState":    {1: `^\$p0$`},
+	"channeldb.ChannelStateDB.AdvanceCommitChainTail/putChanCommitment(remote)": {1: `^&channeldb\.deserializeCommitDiff\(bytes\.NewReader\(.*\.Get\(channeldb\.commitDiffKey\)\)\)\.Commitment$`},
+	"channeldb.ChannelStateDB.AdvanceCommitChainTail/putRevocationLog":          {1: `^&\$p0\.RemoteCommitment$`, 2: `^\$p3$`, 3: `^\$p4$`},
+	"channeldb.ChannelStateDB.AdvanceCommitChainTail/AddFwdPkg":                 {1: `^\$p1$`},
+}
+
+// c02StorePayloads: what each transition serializes under the keys it writes
+// directly (the lists filtered inside the transaction are the elements of the
+// list read back under the same key).
+var c02StorePayloads = map[string]map[string]c02PayloadRule{
+	"channeldb.ChannelStateDB.UpdateChannelCommitment": {
+		"unsignedAckedUpdatesKey": {writer: "serializeLogUpdates", value: `^\$p2$`},
+		"lastWasRevokeKey":        {writer: "WriteElements", value: `^(true|false)$`},
+		"remoteUnsignedLocalUpdatesKey": {writer: "serializeLogUpdates", value: `^\$v:\[\]`,
+			elems: `^\$elem\(channeldb\.deserializeLogUpdates\(bytes\.NewReader\(.*\.Get\(channeldb\.remoteUnsignedLocalUpdatesKey\)\)\)\)$`},
+	},
+	"channeldb.ChannelStateDB.AppendRemoteCommitChain": {
+		"lastWasRevokeKey": {writer: "WriteElements", value: `^(true|false)$`},
+		"commitDiffKey":    {writer: "serializeCommitDiff", value: `^\$p1$`},
+	},
+	"channeldb.ChannelStateDB.AdvanceCommitChainTail": {
+		"unsignedAckedUpdatesKey": {writer: "serializeLogUpdates", value: `^\$v:\[\]`,
+			elems: `^\$elem\(channeldb\.deserializeLogUpdates\(bytes\.NewReader\(.*\.Get\(channeldb\.unsignedAckedUpdatesKey\)\)\)\)$`},
+		"remoteUnsignedLocalUpdatesKey": {writer: "serializeLogUpdates", value: `^\$p2$`},
+	},
 }
 
 // modifiedMarkerDiscipline: when the update logs are rebuilt, an HTLC is
@@ -175,7 +246,7 @@ func commitStoreTransactions(r *an.Run) {
 func modifiedMarkerDiscipline(r *an.Run) {
 	p := r.Prog
 	r.Obl("restore-marks-only-removed-htlcs", "TABLE",
-		"in the three log-restoring functions (restorePendingRemoteUpdates, restorePeerLocalUpdates, restorePendingLocalUpdates) markHtlcModified(payDesc.ParentIndex) is unreachable for entries of type Add, NoOpAdd and FeeUpdate, reachable for Settle, Fail and MalformedFail, and marks the log opposite to the one that receives the restored update",
+		"in the three log-restoring functions (restorePendingRemoteUpdates, restorePeerLocalUpdates, restorePendingLocalUpdates) markHtlcModified(payDesc.ParentIndex) is unreachable for entries of type Add, NoOpAdd and FeeUpdate, reached by every restored Settle, Fail and MalformedFail (no further condition between the insertion into the log and the mark), and marks the log opposite to the one that receives the restored update, which is the log the converter looked the parent HTLC up in",
 		"a fee update has no parent HTLC (its ParentIndex is 0): marking on its behalf makes HTLC 0 look already resolved, so its real settle or fail is rejected after a restart", 6,
 		func(o *an.Obl) {
 			kinds := []string{"Add", "NoOpAdd", "FeeUpdate", "Settle", "Fail", "MalformedFail"}
@@ -207,7 +278,24 @@ func modifiedMarkerDiscipline(r *an.Run) {
 					if restored == "" || restored == marked {
 						o.FailAt(f.ID+"#marked-log", m.Where(), "the HTLC is marked modified in %s, the same log (%s) that receives the restored update", marked, restored)
 					}
+					// the parent HTLC is looked up (by the converter) in the log
+					// in which it is then marked
+					for _, c := range f.AllCalls(false) {
+						id := an.CalleeID(f.Info(), c.Node.(*ast.CallExpr))
+						if !strings.HasSuffix(id, "ogUpdateToPayDesc") {
+							continue
+						}
+						a := f.ArgCanon(c)
+						o.Site("%s: %s looks the parent up in %s", name, id, a[1])
+						if a[1] != f.Canon(sel.X) {
+							o.FailAt(f.ID+"#parent-log", c.Where(), "%s looks the parent HTLC up in %s but marks it in %s", id, a[1], f.Canon(sel.X))
+						}
+						if !reMatch(`^&\$elem\(\$p0(\.LogUpdates)?\)$`, a[0]) {
+							o.FailAt(f.ID+"#converted-update", c.Where(), "%s converts %s, expected the element of the restored list", id, a[0])
+						}
+					}
 				}
+				c02ParamsStable(o, f)
 				// the entry types the descriptor source of this function can
 				// construct (an update list that never holds Adds is restored
 				// by a converter that has no Add case)
@@ -289,6 +377,28 @@ func modifiedMarkerDiscipline(r *an.Run) {
 					if !hit && removal[k] {
 						o.FailAt(f.ID+"#no-mark-for-"+k, marks[0].Where(), "%s no longer marks the parent HTLC of a restored %s as modified", name, k)
 					}
+					// every restored removal is marked, not only some: once the
+					// update was put into its log, the iteration cannot end
+					// before the mark
+					if removal[k] {
+						stop := map[*flow.Vertex]bool{}
+						for _, m := range marks {
+							stop[m.V] = true
+						}
+						for _, c := range f.AllCalls(false) {
+							cs, ok := c.Node.(*ast.CallExpr).Fun.(*ast.SelectorExpr)
+							if !ok || (cs.Sel.Name != "restoreUpdate" && cs.Sel.Name != "appendUpdate") || !reach[c.V] {
+								continue
+							}
+							after := f.ReachUnderStop(c.V, decide, stop)
+							for _, end := range append(c02RangeHeads(f), f.Graph().Exit) {
+								if after[end] && !stop[end] {
+									o.FailAt(f.ID+"#unmarked-"+k, c.Where(), "%s: after %s a restored %s can finish its iteration without markHtlcModified", name, c.String(), k)
+									break
+								}
+							}
+						}
+					}
 				}
 			}
 		})
@@ -327,13 +437,26 @@ func entryKindDecide(k string) an.Decide {
 // converterKinds lists the entry types a log-update converter constructs, and
 // per constructed kind the descriptor fields its arm sets.
 func converterKinds(p *an.Prog, id string) (map[string]bool, map[string]map[string]bool) {
+	k, f, _ := c02ConverterArms(p, id)
+	return k, f
+}
+
+// c02ConverterArms is converterKinds that also returns, per constructed kind,
+// the canonical source of every descriptor field its arm sets (the message
+// variable of the type switch printed as $msg, so that arms are comparable).
+func c02ConverterArms(p *an.Prog, id string) (map[string]bool, map[string]map[string]bool, map[string]map[string]string) {
 	conv := p.Func(id)
 	kinds := map[string]bool{}
 	fields := map[string]map[string]bool{}
+	sources := map[string]map[string]string{}
+	norm := func(e ast.Expr) string {
+		return reSub(`\$v:\*lnwire\.[A-Za-z]+`, "$$msg", conv.Canon(e))
+	}
 	_, clauses := conv.TypeSwitchCases()
 	for _, cl := range clauses {
 		var armKinds []string
 		set := map[string]bool{}
+		src := map[string]string{}
 		for _, st := range cl.Body {
 			ast.Inspect(st, func(n ast.Node) bool {
 				switch x := n.(type) {
@@ -343,11 +466,13 @@ func converterKinds(p *an.Prog, id string) (map[string]bool, map[string]map[stri
 						for _, el := range lit.Elts {
 							if kv, ok := el.(*ast.KeyValueExpr); ok {
 								set[key+"."+an.Text(kv.Key)] = true
+								src[key+"."+an.Text(kv.Key)] = norm(kv.Value)
 							}
 						}
 						return false
 					}
 					set[key] = true
+					src[key] = norm(x.Value)
 					if key == "EntryType" {
 						if cid, ok := x.Value.(*ast.Ident); ok {
 							if _, isConst := conv.Info().Uses[cid].(*types.Const); isConst {
@@ -377,13 +502,20 @@ func converterKinds(p *an.Prog, id string) (map[string]bool, map[string]map[stri
 			kinds[k] = true
 			if fields[k] == nil {
 				fields[k] = map[string]bool{}
+				sources[k] = map[string]string{}
 			}
 			for f := range set {
 				fields[k][f] = true
 			}
+			for f, c := range src {
+				if old, dup := sources[k][f]; dup && old != c {
+					c = old + " | " + c
+				}
+				sources[k][f] = c
+			}
 		}
 	}
-	return kinds, fields
+	return kinds, fields, sources
 }
 
 // persistRestoreKindAgreement: the lists of updates written for a later
@@ -393,7 +525,7 @@ func converterKinds(p *an.Prog, id string) (map[string]bool, map[string]map[stri
 func persistRestoreKindAgreement(r *an.Run) {
 	p := r.Prog
 	r.Obl("persisted-update-kinds-match-restore", "TABLE",
-		"unsignedLocalUpdates (our updates the peer still has to sign) keeps every entry kind except adds, exactly the kinds localLogUpdateToPayDesc restores; getUnsignedAckedUpdates filters by log index only (every kind), as remoteLogUpdateToPayDesc restores every kind; in each of the three converters the arms for Settle, Fail and MalformedFail set the same bookkeeping fields (entry type, log index, parent index, the commit heights of the same sides)",
+		"unsignedLocalUpdates (our updates the peer still has to sign) keeps every entry kind except adds, exactly the kinds localLogUpdateToPayDesc restores; getUnsignedAckedUpdates filters by log index only (every kind), as remoteLogUpdateToPayDesc restores every kind; in each of the three converters the arms for Settle, Fail and MalformedFail set the same bookkeeping fields (entry type, log index, parent index, the commit heights of the same sides) from the same sources: the log index of the persisted update, the HtlcIndex of the HTLC looked up by the message ID, the height parameter",
 		"an update kind dropped on the persist side, or restored without the commit height its siblings get, is applied twice or not at all after a restart although it was covered by a signature", 12,
 		func(o *an.Obl) {
 			all := []string{"Add", "NoOpAdd", "FeeUpdate", "Settle", "Fail", "MalformedFail"}
@@ -438,16 +570,40 @@ func persistRestoreKindAgreement(r *an.Run) {
 			}
 			for _, conv := range []string{"logUpdateToPayDesc", "localLogUpdateToPayDesc", "remoteLogUpdateToPayDesc"} {
 				id := lw + "LightningChannel." + conv
-				_, fields := converterKinds(p, id)
+				_, fields, sources := c02ConverterArms(p, id)
 				book := func(k string) []string {
 					var out []string
 					for f := range fields[k] {
 						if f == "EntryType" || f == "LogIndex" || f == "ParentIndex" || strings.Contains(f, "CommitHeights") {
-							out = append(out, f)
+							// the field and where its value comes from (the entry
+							// type is what distinguishes the arms)
+							if f == "EntryType" {
+								out = append(out, f)
+							} else {
+								out = append(out, f+"="+sources[k][f])
+							}
 						}
 					}
 					sortStrings(out)
 					return out
+				}
+				// parent and log index come from the looked-up HTLC and the
+				// persisted update, the heights from the height parameter
+				c02ParamsStable(o, p.Func(id))
+				for _, k := range []string{"Settle", "Fail", "MalformedFail"} {
+					for f, want := range map[string]string{
+						"ParentIndex": `^\$p1\.lookupHtlc\(\$msg\.ID\)\.HtlcIndex$`,
+						"LogIndex":    `^\$p0\.LogIndex$`,
+					} {
+						if got := sources[k][f]; !reMatch(want, got) {
+							o.FailAt(id+"#source-"+k+"-"+f, p.Func(id).Where(p.Func(id).Body.Pos()), "in %s the %s arm takes %s from %s, expected /%s/", conv, k, f, got, want)
+						}
+					}
+					for f, got := range sources[k] {
+						if strings.Contains(f, "CommitHeights") && got != "$p2" {
+							o.FailAt(id+"#source-"+k+"-"+f, p.Func(id).Where(p.Func(id).Body.Pos()), "in %s the %s arm sets %s to %s, expected the commit height parameter", conv, k, f, got)
+						}
+					}
 				}
 				ref := book("Settle")
 				o.Site("%s: Settle arm sets %v", conv, ref)
